@@ -17,6 +17,7 @@
 # -----------------------------------------------------------------------------
 import asyncio as aio
 import logging
+import struct
 from .. import encoding as enc
 from .. import security as sec
 from .. import types
@@ -64,6 +65,10 @@ class NfdRegister(PrefixRegisterer):
             except (types.InterestNack, types.InterestTimeout, types.InterestCanceled, types.ValidationFailure) as e:
                 logging.getLogger(__name__).error(
                     f'Registration for {enc.Name.to_str(name)} failed: {e.__class__.__name__}')
+                return False
+            except (enc.DecodeError, TypeError, ValueError, IndexError, struct.error):
+                logging.getLogger(__name__).error(
+                    f'Registration for {enc.Name.to_str(name)} failed: malformed response')
                 return False
 
     async def unregister(self, name: enc.NonStrictName) -> bool:
